@@ -148,6 +148,12 @@ def run_property(prop, tier, seed, replay=None):
             hits = common.forbidden_scan()
             for h in hits:
                 violations.append(("forbidden construct", {"kind": "theorem", "what": h}, True))
+            if tier == "thorough":
+                # independent re-check of the compiled property module by the toolchain's leanchecker
+                rc, out = common.sh(["lake", "env", "leanchecker", "Crusta.Props.%s" % prop.id], cwd=common.LEAN_DIR, timeout=1800)
+                coverage["leanchecker"] = "ok" if rc == 0 else "FAILED"
+                if rc != 0:
+                    violations.append(("leanchecker", {"kind": "theorem", "what": "leanchecker rejects Crusta.Props.%s: %s" % (prop.id, out[-400:])}, True))
         # 4. harness
         rc, out = common.harness_build()
         harness_ok = rc == 0
